@@ -229,6 +229,7 @@ Lemma add_factor_atomic_registered : forall t l f,
 Proof.
   intros t l f R. unfold t_add_factor. destruct (negb (el_term l)); [reflexivity|].
   rewrite (add_edge_label_registered _ _ R).
+  destruct (amem Nat.eq_dec (t_fac t) (el_name l)); [reflexivity|].
   destruct (negb (Nat.eqb (length (f_doms f)) (length (el_ty l)))); [reflexivity|].
   destruct (negb (fac_doms_ok t (el_ty l) (f_doms f))); [reflexivity|]. cbn. discriminate.
 Qed.
